@@ -296,6 +296,9 @@ class Node(object):
         self.take_servers_off_duty(preemption=self.schedule.preemption)
         self.add_new_servers(self.schedule.c)
         self.begin_service_if_possible_change_shift()
+        if self.schedule.preemption == 'reroute':
+            for _ in range(self.len_blocked_queue):
+                self.release_blocked_individual()
 
     def find_number_of_slotted_services(self):
         """
@@ -584,6 +587,8 @@ class Node(object):
         next_individual.service_end_date = self.now + next_individual.service_time
         self.reset_class_change(next_individual)
         server.next_end_service_date = next_individual.service_end_date
+        if self.priority_preempt == 'reroute':
+            self.release_blocked_individual()
 
     def release(self, next_individual, next_node, reroute=False):
         """
